@@ -51,7 +51,21 @@ def one(acc, isa, text, expect_bytes, clause, addr=0x200, consts=(), yaml=False,
     if msg:
         acc.violation([case], spec, f'{text!r}: {msg}', [out])
     acc.judge(clause=clause, nontrivial_distinct=True)
+    if expect_bytes is None:
+        # a constraint is enforced whatever outputs are requested: the same statement with --no-binary and a pretty print only
+        _NB[0] += 1
+        fmt = ('listing', 'hex', 'intel_hex', 'minhex')[_NB[0] % 4]
+        case2 = Case(isa, src, start=addr, isa_yaml=yaml, binary=False, pretty=fmt)
+        out2 = acc.run(case2)
+        spec2 = dict(spec, mode=f'--no-binary -p -t {fmt}')
+        msg2 = judge_expect(spec2, [out2])
+        if msg2:
+            acc.violation([case2], spec2, f'{text!r} [--no-binary -t {fmt}]: {msg2}', [out2])
+        acc.judge(clause=clause + '/no-binary', nontrivial_distinct=True)
     return out
+
+
+_NB = [0]
 
 
 def boundary_values(w):
